@@ -63,7 +63,7 @@ def seq_ops():
         st.tuples(st.just('remove'), v),
         st.tuples(st.just('count'), v),
         st.tuples(st.just('contains'), v),
-        st.tuples(st.just('compare'), st.sampled_from(['eq', 'ne', 'lt', 'le', 'gt', 'ge']), st.sampled_from(['same-list', 'same-tuple', 'same-deque', 'prefix', 'longer', 'bumped', 'empty', 'nonseq'])),
+        st.tuples(st.just('compare'), st.sampled_from(['eq', 'ne', 'lt', 'le', 'gt', 'ge']), st.sampled_from(['same-list', 'same-tuple', 'same-deque', 'prefix', 'longer', 'bumped', 'empty', 'nonseq', 'longer-small-head', 'shorter-big-head', 'ints'])),
         st.tuples(st.just('iter')),
         st.tuples(st.just('clear')),
         st.tuples(st.just('maxlen'), st.sampled_from([None, 0, 1, 3, 5])),
@@ -199,6 +199,12 @@ class Sequential(SubCheck):
                         other = cur + [0]
                     elif kind == 'bumped':
                         other = [1 if (type(x) is int and x == 0) else 0 for x in cur]
+                    elif kind == 'longer-small-head':
+                        other = [-1] + cur[1:] + [0, 0] if cur and type(cur[0]) is int else [0] + cur
+                    elif kind == 'shorter-big-head':
+                        other = [99] + cur[1:-1] if len(cur) >= 2 and type(cur[0]) is int else cur[:-1]
+                    elif kind == 'ints':
+                        other = [2, 0, 1][: max(0, len(cur) - 1)] + [1]
                     elif kind == 'empty':
                         other = []
                     else:
